@@ -13,7 +13,9 @@ An unknown cursor prints `nocursor`; a panic prints `panic` and ends the line.
 
   replsync <initial size> <max size> <ev>;<ev>;…     → <obs>;<obs>;…      (handshake model, `Slock.Repl.Sync` in Model/Repl.lean)
 events: append[:<dlen>] → ok      connect:<f> → full:<H> | resume:<id> | end:<id> | notfound-full:<H> | noop
+  start:<f> → ok | noop   (the client's "started" message: AddPoll; file phase / stream begins)
   deliver:<f> → file:<id> | filesdone | send:<id> | pop:<id> | idle | oob | noop        cut:<f> → ok | noop
+  restart:<f> → ok (follower restarted on the same dir)     wipe:<f> → ok (… on an empty dir)
   st → n=<leader records> f<k>=<curId>/<conn>/[applied ids] …
   setid:<f>:<id> → ok   (driver-only: follower f arrives with a directory whose last applied record is <id>; used by the process-level differential)
 -/
@@ -67,6 +69,8 @@ def rRun : Sys → List String → List String → List String
 
 def rShowConn : Conn → String
   | .off => "off"
+  | .wait none => "wait.resume"
+  | .wait (some h) => s!"wait.full.{h}"
   | .files h p => s!"files.{h}.{p}"
   | .stream => "stream"
 
@@ -95,6 +99,9 @@ def rParseEv (e : String) : Option Ev :=
   | ["append", d] => do pure (.append (← d.toNat?))
   | ["append"] => some (.append 0)
   | ["connect", n] => do pure (.connect (← n.toNat?))
+  | ["start", n] => do pure (.start (← n.toNat?))
+  | ["restart", n] => do pure (.restartSame (← n.toNat?))
+  | ["wipe", n] => do pure (.restartEmpty (← n.toNat?))
   | ["deliver", n] => do pure (.deliver (← n.toNat?))
   | ["cut", n] => do pure (.cut (← n.toNat?))
   | _ => none
